@@ -199,7 +199,7 @@ theorem build_exact_noext (doc : Doc) (d : SchemaD) (v : ValidNoExt doc d) : bui
   have hroots := v.rootsOk
   have hthunk := v.noThunkCycle
   have hext : ∀ live, typeExtensions live doc = [] := fun live => typeExtensions_nil live doc v.noTypeExt
-  simp only [build, buildIgnoringExtensions, hc, bind, Except.bind, buildCollected, hct, hcd, hcs, hthunk, hds, hbt,
+  simp only [build, buildIgnoringExtensions, hc, bind, Except.bind, buildCollected, failIf, hct, hcd, hcs, hthunk, hds, hbt,
     filterMap_id_map_some, hcyc, hroots, hspec, Bool.false_eq_true, if_false, pure, Except.pure, referencedAdditional,
     List.filter_nil, List.append_nil, extendSchema, hext, v.noSchemaExt, List.isEmpty_nil, Bool.and_self, if_true, toSchemaD]
   exact congrArg Except.ok hd.symm
@@ -469,7 +469,7 @@ theorem extend_enum_exact (env : Env) (exts : List TypeDef) (t : TypeD) (hk : t.
   have := extension_merge_exact (.lib .ext) buildEnumValue (·.name) (·.values) (exts.filter (·.name == t.name)) t.values news hb hn
   rw [hk] at hmine
   unfold extendType
-  simp only [hmine, Bool.false_eq_true, if_false, hk]
+  simp only [hmine, failIf, Bool.false_eq_true, if_false, hk]
   rw [this]
   rfl
 
